@@ -52,10 +52,8 @@ def nud__map_sequence_type_or_constructor(self: XPathFunction) \
 
     if self[0].symbol != '*':
         self.parser.advance(',')
-        if self.parser.next_token.label not in ('kind test', 'sequence type', 'function test'):
-            self.parser.expected_next('(name)', ':', '*', message='a QName or a wildcard expected')
-        self.append(self.parser.expression(45))
-        self.parser.parse_occurrence(self[-1])
+        # the value type is a sequence type: its occurrence indicator is not a lookup operator
+        self.append(self.parser.parse_sequence_type())
 
     self.parser.advance(')')
     return self
@@ -75,11 +73,12 @@ def nud__sequence_type_or_curly_array_constructor(self: XPathFunction) -> XPathT
 
     self.label = 'kind test'
     self.parser.advance('(')
-    if self.parser.next_token.label not in ('kind test', 'function test'):
-        self.parser.expected_next('(name)', ':', '*', 'item')
-    self[:] = self.parser.expression(45),
-    if self[0].symbol != '*':
-        self.parser.parse_occurrence(self[0])
+    if self.parser.next_token.symbol == '*':
+        self[:] = self.parser.expression(45),
+    else:
+        # the member type is a sequence type (also empty-sequence()): its occurrence
+        # indicator is not a lookup operator
+        self[:] = self.parser.parse_sequence_type(),
     self.parser.advance(')')
     self.parser.parse_occurrence(self)
     return self
